@@ -38,16 +38,21 @@ hawk_oow_t hawk_uc_to_utf16 (hawk_uch_t uc, hawk_bch_t* utf16, hawk_oow_t size)
 {
 	hawk_uint16_t* u16 = (hawk_uint16_t*)utf16;
 
+	/* like the other converters, store only if the buffer is given and large
+	 * enough. a small buffer is indicated by the return value greater than 'size'. */
 	if (uc <= 0xFFFF)
 	{
-		u16[0] = (hawk_uint16_t)uc;
+		if (utf16 && size >= 2) u16[0] = (hawk_uint16_t)uc;
 		return 2;
 	}
 #if (HAWK_SIZEOF_UCH_T > 2)
 	else if (uc <= 0x10FFFF)
 	{
-		u16[0] = HIGH_SURROGATE_START | (((uc >> 16) & 0x1F) - 1) | (uc >> 10);
-		u16[1] = LOW_SURROGATE_START | (uc & 0x3FF);
+		if (utf16 && size >= 4)
+		{
+			u16[0] = HIGH_SURROGATE_START | (((uc >> 16) & 0x1F) - 1) | (uc >> 10);
+			u16[1] = LOW_SURROGATE_START | (uc & 0x3FF);
+		}
 		return 4;
 	}
 #endif
